@@ -234,7 +234,7 @@ def scan_configs(q):
         return [('small', dict(small, Lens='{0, 3, 8, 9, 10, 12, 13, 17, 20, 21, 24, 25, 29}', MaxDots=2)),
                 ('real', dict(real, Lens='{8095, 8097, 8105, 16200, 16210}', Near=9, MaxDots=1)),
                 ('real2', dict(real, Lens='{8100, 8109, 16201}', Near=2, MaxDots=2))]
-    return [('small', dict(small, Lens='0..30', MaxDots=2)),
+    return [('small', dict(small, Lens='{' + ', '.join(str(i) for i in range(31)) + '}', MaxDots=2)),
             ('small3', dict(small, Lens='{9, 13, 21, 25}', MaxDots=3)),
             ('real', dict(real, Lens='{8095, 8096, 8097, 8105, 16200, 16210, 24300}', Near=12, MaxDots=1)),
             ('real2', dict(real, Lens='{8100, 8104, 8109, 16201}', Near=9, MaxDots=2))]
